@@ -61,8 +61,11 @@ def aero_surface(s):
         with_viscous=bool(s.get("with_viscous", False)),
         with_wave=bool(s.get("with_wave", False)),
     )
+    if s.get("mesh_dtype") == "float32":
+        # mesh array as read from a single-precision file; every component works in double precision on the values it holds
+        d["mesh"] = d["mesh"].astype(np.float32)
     for k, v in s.items():
-        if k in ("mesh", "struct"):
+        if k in ("mesh", "struct", "mesh_dtype"):
             continue
         if k in _ARRAY_KEYS:
             d[k] = np.array(v, float)
@@ -306,6 +309,13 @@ def configure_solvers(prob, sol, npts):
     for i in range(npts):
         cp = getattr(prob.model, "AS_point_%d" % i).coupled
         nl = sol.get("nl", "nlbgs")
+        if nl == "shipped":
+            # the coupled solver exactly as AerostructPoint.setup configures it; only options a user would set are touched
+            for k in ("maxiter", "use_aitken"):
+                if k in sol:
+                    cp.nonlinear_solver.options[k] = sol[k]
+            cp.nonlinear_solver.options["iprint"] = -1
+            continue
         atol = sol.get("atol", 1e-10)
         rtol = sol.get("rtol", 1e-30)
         if nl.startswith("nlbgs"):
